@@ -16,12 +16,13 @@ part), for
 
 * every reply shape `Reply` (body / trailers present; MOSN's own replies get theirs from `Gen.ProxyReply`),
 * every outcome vector `Outs` (ok / error per part),
-* a downstream stream reset (`OnResetStream`: the client's connection closing) delivered between ANY two steps —
-  in particular from inside a failing sender call —, position `rp : Nat`,
+* the client's departure (`OnResetStream`) delivered between ANY two steps — in particular from inside a failing sender
+  call —, position `rp : Nat`, either as a reset of the downstream stream by the stream layer or as the proxy's
+  connection-close callback (which skips streams whose `upstreamProcessDone` is already set),
 * every start state `start clientGone upLive`.
 
-A write is the static op list `ops P r` (programs flattened between an `enter` and a `procErr` per part); the reset is
-the op `reset` inserted at index `rp` (`insertAt`; an index beyond the end = the reset arrives after the worker is gone).
+A write is the static op list `ops P r` (programs flattened between an `enter` and a `procErr` per part); the departure is
+the op `reset` / `connClose` inserted at index `rp` (`insertAt`; an index beyond the end = the reset arrives after the worker is gone).
 Observable: the event list `ev` (sender calls, `endStream`, the BODY of `cleanStream`, resets issued by the proxy), the
 active gauge, the membership in the proxy's active-stream list.
 -/
@@ -219,9 +220,13 @@ def exec (o : Outs) (s : RW) (l : List Op) : RW := l.foldl (step o) s
 still be open (head of a streamed response) -/
 def start (clientGone upLive : Bool) : RW := { downReset := clientGone, downLive := !clientGone, upLive := upLive }
 
-/-- write reply `r` with sender outcomes `o`; the downstream reset arrives before op number `rp` -/
-def writeReply (P : Progs) (r : Reply) (o : Outs) (rp : Nat) (s : RW) : RW :=
-  exec o s (insertAt rp Op.reset (ops P r))
+/-- how the client's departure reaches the stream: the stream layer resets the downstream stream (`reset`), or the proxy's
+connection-event callback walks its active streams (`connClose`: it SKIPS a stream whose `upstreamProcessDone` is set) -/
+def departure (viaConn : Bool) : Op := if viaConn then Op.connClose else Op.reset
+
+/-- write reply `r` with sender outcomes `o`; the client's departure arrives before op number `rp` -/
+def writeReply (P : Progs) (r : Reply) (o : Outs) (rp : Nat) (viaConn : Bool) (s : RW) : RW :=
+  exec o s (insertAt rp (departure viaConn) (ops P r))
 
 /-! ### reply shapes of MOSN's own replies (regenerated effects of `sendHijackReply[WithBody]`) -/
 
